@@ -259,11 +259,19 @@ class Linear2StageBattery(Battery):
             # charging regions.
             if 1 <= (pilot_transition_soc - self._soc) / pilot_dsoc:
                 curr_soc = pilot_dsoc + self._soc
+            elif pilot_transition_soc >= 1:
+                # No rampdown region (its width rounds to zero): constant
+                # power until the battery is full.
+                curr_soc = 1.0
             else:
                 curr_soc = 1 + np.exp(
                     (pilot_dsoc + self._soc - pilot_transition_soc)
                     / (pilot_transition_soc - 1)
                 ) * (pilot_transition_soc - 1)
+        elif pilot_transition_soc >= 1:
+            # The SoC has reached a (pilot-shifted) transition SoC of 1: the
+            # battery is full and the rampdown below has zero width.
+            curr_soc = self._soc
         else:
             curr_soc = 1 + np.exp(pilot_dsoc / (pilot_transition_soc - 1)) * (
                 self._soc - 1
